@@ -63,6 +63,18 @@ CHECKS = {
     design_ref="DESIGN.md section 5 C10",
     note="Trusted: Coq kernel + VM; hand-written model tied by correspondence (3500 pairs per quick run); class-name aliasing (Kotlin Array / SpecializedArray) passed as a table.",
     technique="Coq proofs over the unification model + correspondence + substitute-back judge"),
+ "C01": dict(
+    category="translation_validation",
+    text="The generator (2900 lines of randomised construction) is NOT modelled. What Coq carries is the program IR (IR/Syntax.v: one node per AST object with every attribute, types as nominal terms), the class table extracted from the program, and an executable reference type checker (IR/Check.v) built on the declarative relation SubA and its proved-sound checker (C06): it resolves every name, synthesises expression types (members through the class chain with the class parameters substituted, smart casts, inherited default values, boxing) and checks every typed position -- initializers, call / constructor / super-constructor arguments (positional, named, default, vararg), function and lambda results, conditional branches against the type the CONTEXT expects (the recorded type of a conditional is only an approximation), assignments, bounds of explicit type arguments, inherited abstract members, final superclasses. It is lenient by construction: a position it cannot type is counted (coverage.unchecked_positions), never rejected. Properties_C01.v proves what acceptance of a position means (SubA derivable, or the modelled is_assignable accepts, or out of fuel). Every run: programs from the real generator (4 languages x switch corners) are serialised node by node (fail-closed) and the kernel proves  only_codes typing_codes (check_program ...) = []  for each. PARTIAL: 'for all seeds' is sampled; a rejected program is a violation with the pickled program and the located error as replay.",
+    design_ref="DESIGN.md section 5 C01",
+    note="Trusted: Coq kernel + VM; ir2coq serialiser; the reference checker itself is a definition (validated on the unchanged tree: 0 rejections in several hundred programs of all four languages, and against seeded generator mutations), not proved against an independent typing relation.",
+    technique="per-program kernel evaluation of an executable reference checker built on the proved subtype checker (translation validation)"),
+ "C05": dict(
+    category="translation_validation",
+    text="Same machinery as C01 (IR/Check.v evaluated in the kernel on serialised programs of the real generator); C05 judges the scoping/mutability codes: every Variable, FunctionCall (incl. calls through function-typed variables), FieldAccess, New and Assignment resolves to a declaration visible at that point (earlier in the same or an enclosing block, parameter, field of the enclosing class or of a superclass, member of the receiver's class chain, top-level), argument counts admit defaults/varargs/named arguments, only non-final variables and fields are assigned, only regular classes are instantiated, identifiers are not declared twice in one block or parameter list and are not reserved words (keyword lists read from src/resources on every run), Java lambdas and nested functions capture only final locals. Per program the kernel proves  only_codes scoping_codes (check_program ...) = [].  PARTIAL: sampled over seeds; resolution through receivers whose type the checker cannot determine is counted as unchecked.",
+    design_ref="DESIGN.md section 5 C05",
+    note="Trusted: as C01. Type variables in scope (code 24) are not yet checked.",
+    technique="per-program kernel evaluation of an executable reference resolver/checker (translation validation)"),
 }
 
 NOT_APPLICABLE = {
@@ -70,7 +82,7 @@ NOT_APPLICABLE = {
  "C13": "The property is about CPython's pickle applied to ~40 IR classes; a Coq model would be a model of pickle and the only tie to the code would be the round-trip test itself (DESIGN.md section 6).",
 }
 
-PENDING = ["C01","C03","C04","C05","C11","C12","C18"]
+PENDING = ["C03","C04","C11","C12","C18"]
 
 def main():
     checks = []
@@ -94,9 +106,9 @@ def main():
     m = dict(
         version=1,
         setup_cmd="cd /verif/coq && coq_makefile -f _CoqProject -o Makefile && timeout 3600 make -j16",
-        hooks=dict(guard="HEPHAESTUS_VERIF", enable="export HEPHAESTUS_VERIF=1 (set by ./check); no hook is compiled in, the guard only switches Python-level instrumentation",
+        hooks=dict(guard="HEPHAESTUS_VERIF", enable="export HEPHAESTUS_VERIF=1 (set by ./check); src/ir/node.py gives Node objects a creation-order hash when the variable is set (reproducible generation); everything else is wrapped from outside",
                    baseline_off_cmd="cd /repo && env -u HEPHAESTUS_VERIF /venv/bin/python -m pytest -ra -q -p no:cacheprovider --timeout=900 --continue-on-collection-errors",
-                   source_commits=[], add_only=True),
+                   source_commits=["c63c77d"], add_only=True),
         engines=[dict(name="coq-model-correspondence", path="/verif/check",
                       serves_properties=sorted(CHECKS),
                       kind_free_text="Coq 8.16.1 development under /verif/coq (models, specs, proofs); harness/*.py drives /repo's Python code and the model (vm_compute in coqc) on the same inputs")],
